@@ -25,6 +25,7 @@ type wordLine struct {
 	IndentP    []int              `json:"indentp"`
 	HTMLEsc    []int              `json:"htmlesc"`
 	MaxDepth   int                `json:"maxdepth"`
+	Dead       bool               `json:"dead"` // the scanner automaton is in its error state: no continuation is well-formed
 	noProbes   bool               // the nesting-limit texts: one probe patch only (they are 50 kB each)
 }
 
@@ -64,6 +65,14 @@ func (e *engine) checkWordLine(worker int, raw []byte) error {
 		variants = append(variants, append(append([]byte("\n\t "), w...), []byte(" \r\n")...))
 		variants = append(variants, append(append([]byte("\r\n"), w...), []byte("\t")...))
 	}
+	// a word at which the specification's automaton has given up (ErrorAbsorbs: no continuation is well-formed) is
+	// also tried with the continuations that would complete it had the offending byte been let through
+	full := len(variants)
+	if ln.Dead && (e.prop == "C16" || e.prop == "C04") {
+		for _, suf := range completions {
+			variants = append(variants, append(append([]byte{}, w...), suf...))
+		}
+	}
 	for vi, t := range variants {
 		text := t
 		viol := func(kind, detail string, extra map[string]interface{}) *lib.Violation {
@@ -99,6 +108,14 @@ func (e *engine) checkWordLine(worker int, raw []byte) error {
 				}
 			}
 		}
+		if vi >= full {
+			e.rep.Label("Word_dead_completed")
+			codecAcceptance(text, false, expect)
+			expect("DecodePatch", false, false, func() bool { _, err := lib.DecodePatch(text); return err == nil })
+			expect("Equal(w,w)", false, false, func() bool { return lib.Equal(text, text) })
+			expect("MergePatch(document)", false, false, func() bool { _, err := lib.MergePatch(text, emptyObj); return err == nil })
+			continue
+		}
 		switch e.prop {
 		case "C16", "C04", "C06":
 			e.wordAcceptance(&ln, text, expect, try)
@@ -110,6 +127,9 @@ func (e *engine) checkWordLine(worker int, raw []byte) error {
 	}
 	return nil
 }
+
+var completions = [][]byte{[]byte(`"`), []byte(`0"`), []byte(`00"`), []byte(`000"`), []byte(`"]`), []byte(`"}`), []byte(`]`), []byte(`}`),
+	[]byte(`1]`), []byte(`:1}`), []byte(`":1}`), []byte(`1`), []byte(`e1`), []byte(`ull`), []byte(`,1]`)}
 
 var emptyObj = []byte(`{}`)
 var emptyPatch = []byte(`[]`)
@@ -177,10 +197,25 @@ func (e *engine) wordAcceptance(ln *wordLine, text []byte, expect func(string, b
 		try("MergeMergePatches(w,w)", func() bool { _, err := lib.MergeMergePatches(text, text); return err == nil })
 		try("CreateMergePatch(w,{})", func() bool { _, err := lib.CreateMergePatch(text, emptyObj); return err == nil })
 		try("CreateMergePatch({},w)", func() bool { _, err := lib.CreateMergePatch(emptyObj, text); return err == nil })
+		// every word against merge documents that have members, null members and nested containers, on either side
+		for _, m := range probeMerge {
+			try("MergePatch(w, probe)", func() bool { _, err := lib.MergePatch(text, m); return err == nil })
+			try("MergePatch(probe, w)", func() bool { _, err := lib.MergePatch(m, text); return err == nil })
+			try("MergeMergePatches(w, probe)", func() bool { _, err := lib.MergeMergePatches(text, m); return err == nil })
+			try("MergeMergePatches(probe, w)", func() bool { _, err := lib.MergeMergePatches(m, text); return err == nil })
+			try("CreateMergePatch(w, probe)", func() bool { _, err := lib.CreateMergePatch(text, m); return err == nil })
+			try("CreateMergePatch(probe, w)", func() bool { _, err := lib.CreateMergePatch(m, text); return err == nil })
+		}
 	}
 	expect("Equal(w,w)", v, false, func() bool { return lib.Equal(text, text) })
 	expect("Equal(w,1)", ln.EqOne, false, func() bool { return lib.Equal(text, one) })
 	expect("Equal(1,w)", ln.EqOne, false, func() bool { return lib.Equal(one, text) })
+}
+
+var probeMerge = [][]byte{
+	[]byte(`{"a":1,"b":null,"c":{"d":null,"e":[null]}}`),
+	[]byte(`[{"a":null},null,[1]]`),
+	[]byte(`{"":{"":null}}`),
 }
 
 var probePatches = [][]byte{
